@@ -10,6 +10,7 @@ CONSTANTS
   MaxInits = 0
   Irvs = {11}
   WithFunc = "no"
+  MaxAnn = 3
   EmitOn = TRUE
 SPECIFICATION SpecOne
 INVARIANT One
